@@ -38,6 +38,8 @@ const (
 	pElemAddr  // address of element j of list i
 	pDimAddr   // address of extent j of the shape of input i
 	pShapeOpt  // tensor.WithShape(shape of input i...)
+	pBackOpt   // tensor.WithBacking(list j) in a walk with content
+	pReuseOpt  // tensor.WithReuse(tensor with content): fields as pShaped
 	pShaped    // a tensor built with the shape of input i (its data is unknown); j: heap id of its live shape
 	pRevList   // sort.Reverse(sort.IntSlice(list i))
 	pFunc      // a function value (fn)
@@ -94,6 +96,7 @@ type pheap struct {
 
 type palias struct {
 	other, delta int64
+	idx          []int64 // when set: element k of this list is element idx[k] of the other list (-1: none); delta unused
 }
 
 // storeElem writes element j of a list and of every view that shares the element.
@@ -112,6 +115,12 @@ func (h *pheap) storeElem(id, j int64, v pval) {
 			l[w.j] = v
 		}
 		for _, e := range h.alias[w.id] {
+			if e.idx != nil {
+				if w.j >= 0 && w.j < int64(len(e.idx)) && e.idx[w.j] >= 0 {
+					work = append(work, at{e.other, e.idx[w.j]})
+				}
+				continue
+			}
 			work = append(work, at{e.other, w.j + e.delta})
 		}
 	}
@@ -265,6 +274,7 @@ type pinterp struct {
 	callSeed         func(call *ssa.Call) (pval, bool) // value of a designated call (attribute getter)
 	onReject         func(fn *ssa.Function, iff *ssa.If, truth bool)
 	onPanic          func(fn *ssa.Function, in ssa.Instruction, what string)
+	contentDtype     pval       // when set: what Dtype() of a tensor with content answers
 	strictIndex      bool       // every list of the walk is exact: a known index outside a known list is the panic it is at run time
 	contentType      types.Type // when set: the Go type of the named elements of tensors with content (for assertions on At() results)
 	onExt            func(fn *ssa.Function, call *ssa.Call, key string, operands []pval, h *pheap)
@@ -507,20 +517,24 @@ outer:
 					}
 				case a.k == pInt && b.k == pInt:
 					dep := a.dep || b.dep
+					ty := ""
+					if p.content {
+						ty = x.Type().String() // the Go type of the result (for assertions on elements stored in tensors)
+					}
 					switch x.Op {
 					case token.ADD:
-						fr.env[x] = pval{k: pInt, i: a.i + b.i, dep: dep}
+						fr.env[x] = pval{k: pInt, i: a.i + b.i, dep: dep, s: ty}
 					case token.SUB:
-						fr.env[x] = pval{k: pInt, i: a.i - b.i, dep: dep}
+						fr.env[x] = pval{k: pInt, i: a.i - b.i, dep: dep, s: ty}
 					case token.MUL:
-						fr.env[x] = pval{k: pInt, i: a.i * b.i, dep: dep}
+						fr.env[x] = pval{k: pInt, i: a.i * b.i, dep: dep, s: ty}
 					case token.QUO:
 						if b.i != 0 {
-							fr.env[x] = pval{k: pInt, i: a.i / b.i, dep: dep}
+							fr.env[x] = pval{k: pInt, i: a.i / b.i, dep: dep, s: ty}
 						}
 					case token.REM:
 						if b.i != 0 {
-							fr.env[x] = pval{k: pInt, i: a.i % b.i, dep: dep}
+							fr.env[x] = pval{k: pInt, i: a.i % b.i, dep: dep, s: ty}
 						}
 					default:
 						if r, ok := cmpInt(x.Op, a.i, b.i); ok {
@@ -947,6 +961,33 @@ outer:
 						z, _ := zeroOf(x.AssertedType)
 						fr.tuples[x] = []pval{z, {k: pBool, b: false}}
 					}
+					if v.k == pInt && p.content {
+						// an integer element of a tensor with content (index data): its Go type is the one it was last
+						// converted to, or the element type of the raw backings of this walk
+						et := v.s
+						if et == "" && p.listsAreSlicesOf != nil {
+							et = p.listsAreSlicesOf.String()
+						}
+						if _, isBasic := x.AssertedType.Underlying().(*types.Basic); isBasic && et != "" {
+							if x.AssertedType.String() == et {
+								fr.tuples[x] = []pval{v, {k: pBool, b: true}}
+							} else {
+								z, _ := zeroOf(x.AssertedType)
+								fr.tuples[x] = []pval{z, {k: pBool, b: false}}
+							}
+						}
+					}
+					if v.k == pBool && p.content && p.contentType != nil {
+						// a truth value stored in a tensor with content
+						if _, isBasic := x.AssertedType.Underlying().(*types.Basic); isBasic {
+							if types.Identical(x.AssertedType, p.contentType) {
+								fr.tuples[x] = []pval{v, {k: pBool, b: true}}
+							} else {
+								z, _ := zeroOf(x.AssertedType)
+								fr.tuples[x] = []pval{z, {k: pBool, b: false}}
+							}
+						}
+					}
 					if (v.k == pStr || v.k == pTok) && p.contentType != nil {
 						// a named element of a tensor with content, asserted to a basic type
 						if _, isBasic := x.AssertedType.Underlying().(*types.Basic); isBasic {
@@ -1014,8 +1055,8 @@ outer:
 							if fr.heap.alias == nil {
 								fr.heap.alias = map[int64][]palias{}
 							}
-							fr.heap.alias[nv.i] = append(append([]palias{}, fr.heap.alias[nv.i]...), palias{base.i, lo})
-							fr.heap.alias[base.i] = append(append([]palias{}, fr.heap.alias[base.i]...), palias{nv.i, -lo})
+							fr.heap.alias[nv.i] = append(append([]palias{}, fr.heap.alias[nv.i]...), palias{other: base.i, delta: lo})
+							fr.heap.alias[base.i] = append(append([]palias{}, fr.heap.alias[base.i]...), palias{other: nv.i, delta: -lo})
 						}
 						fr.env[x] = nv
 					}
@@ -1169,6 +1210,9 @@ func (p *pinterp) pass(fr *pframe, dst, src ssa.Value, intOnly bool) {
 		// integer conversions between the int kinds keep small values; anything else is unknown
 		if b, ok := dst.Type().Underlying().(*types.Basic); !ok || b.Info()&types.IsInteger == 0 {
 			return
+		}
+		if p.content && v.k == pInt {
+			v.s = dst.Type().String() // the Go type an element was converted to (for assertions on At() results)
 		}
 	}
 	fr.env[dst] = v
@@ -1479,6 +1523,10 @@ func (p *pinterp) call(fn *ssa.Function, fr *pframe, x *ssa.Call, depth int) {
 				}
 			case "Shape":
 				fr.env[x] = pval{k: pList, i: rv.j}
+			case "Dtype":
+				if p.content && p.contentDtype.k != pUnknown {
+					fr.env[x] = p.contentDtype // every tensor of a walk with content has the one element type
+				}
 			case "Dims":
 				if l := fr.heap.lists[rv.j]; l != nil {
 					fr.env[x] = pval{k: pInt, i: int64(len(l))}
@@ -1552,6 +1600,77 @@ func (p *pinterp) call(fn *ssa.Function, fr *pframe, x *ssa.Call, depth int) {
 						fr.env[x] = pval{k: pNil}
 					}
 				}
+			case "Data":
+				// the raw backing of a tensor with content: the elements in order (a scalar: the element itself)
+				if p.content && rv.m != 0 {
+					sh, cont := fr.heap.lists[rv.j], fr.heap.lists[rv.m]
+					if sh != nil && cont != nil {
+						if len(sh) == 0 && len(cont) == 1 {
+							fr.env[x] = cont[0]
+						} else {
+							fr.env[x] = pval{k: pList, i: rv.m}
+						}
+					}
+				}
+			case "Apply":
+				// t.Apply(f [, WithReuse(t)]): f on every element; in place with the reuse option, a new tensor without
+				if p.content && rv.m != 0 && len(cc.Args) >= 1 {
+					ai := 0
+					if !cc.IsInvoke() {
+						ai = 1
+					}
+					if ai >= len(cc.Args) {
+						break
+					}
+					fv := p.val(fr, cc.Args[ai])
+					cont := fr.heap.lists[rv.m]
+					inPlace, plain := false, true
+					if ai+1 < len(cc.Args) {
+						switch o := p.val(fr, cc.Args[ai+1]); o.k {
+						case pNil:
+						case pList:
+							for _, e := range fr.heap.lists[o.i] {
+								if e.k == pReuseOpt && e.m == rv.m {
+									inPlace = true
+								} else {
+									plain = false
+								}
+							}
+						default:
+							plain = false
+						}
+					}
+					if fv.k != pFunc || cont == nil || !plain {
+						if cont != nil {
+							fr.heap.forget(rv.m)
+						}
+						break
+					}
+					out := make([]pval, len(cont))
+					okAll := true
+					for k, e := range append([]pval{}, cont...) {
+						res, ok := p.callFunc(fr, fv, []pval{e}, depth)
+						if !ok || len(res) != 1 || res[0].k == pUnknown {
+							okAll = false
+							break
+						}
+						out[k] = res[0]
+					}
+					if !okAll {
+						if inPlace {
+							fr.heap.forget(rv.m)
+						}
+						break
+					}
+					if inPlace {
+						for k, v := range out {
+							fr.heap.storeElem(rv.m, int64(k), v)
+						}
+						fr.tuples[x] = []pval{rv, {k: pNil}}
+					} else if sh := fr.heap.lists[rv.j]; sh != nil {
+						fr.tuples[x] = []pval{{k: pShaped, i: rv.i, j: fr.heap.alloc(append([]pval{}, sh...)).i, m: fr.heap.alloc(out).i}, {k: pNil}}
+					}
+				}
 			case "Iterator":
 				if p.content {
 					if sh := fr.heap.lists[rv.j]; sh != nil {
@@ -1564,6 +1683,10 @@ func (p *pinterp) call(fn *ssa.Function, fr *pframe, x *ssa.Call, depth int) {
 				}
 			case "Materialize":
 				fr.env[x] = rv // the same elements in a tensor of their own: shape and content as they are
+				if p.content && rv.m != 0 && fr.heap.lists[rv.m] != nil && fr.heap.lists[rv.j] != nil && len(fr.heap.alias[rv.m]) > 0 {
+					// of a view: a copy (what is written to it later does not reach the parent)
+					fr.env[x] = pval{k: pShaped, i: rv.i, j: fr.heap.alloc(append([]pval{}, fr.heap.lists[rv.j]...)).i, m: fr.heap.alloc(append([]pval{}, fr.heap.lists[rv.m]...)).i}
+				}
 			case "Slice":
 				if res, ok := p.sliceModel(fr, rv, cc); ok {
 					fr.tuples[x] = res
@@ -2309,6 +2432,28 @@ func (p *pinterp) call(fn *ssa.Function, fr *pframe, x *ssa.Call, depth int) {
 					o := p.val(fr, cc.Args[2])
 					plain = o.k == pNil || o.k == pList && len(fr.heap.lists[o.i]) == 0
 				}
+				if scal, t := b, a; plain && sc.Name() == "Mul" && ((a.k == pShaped && a.m != 0 && (b.k == pStr || b.k == pFloat)) || (b.k == pShaped && b.m != 0 && (a.k == pStr || a.k == pFloat))) {
+					// a tensor times a Go scalar: every element times that scalar (the scalar 1 leaves them as they are)
+					if a.k != pShaped {
+						scal, t = a, b
+					}
+					ct, st := fr.heap.lists[t.m], fr.heap.lists[t.j]
+					if ct != nil && st != nil {
+						name := scal.s
+						if scal.k == pFloat {
+							name = "f" + scal.s
+						}
+						out := make([]pval, len(ct))
+						for k := range ct {
+							if scal.k == pFloat && (scal.s == "1" || scal.s == "1.0") {
+								out[k] = ct[k]
+							} else {
+								out[k] = combineElems("Mul", ct[k], pval{k: pStr, s: name})
+							}
+						}
+						fr.tuples[x] = []pval{{k: pShaped, i: t.i, j: fr.heap.alloc(append([]pval{}, st...)).i, m: fr.heap.alloc(out).i}, {k: pNil}}
+					}
+				}
 				if plain && a.k == pShaped && b.k == pShaped && a.m != 0 && b.m != 0 {
 					ca, cb := fr.heap.lists[a.m], fr.heap.lists[b.m]
 					sa, sb := fr.heap.lists[a.j], fr.heap.lists[b.j]
@@ -2338,6 +2483,75 @@ func (p *pinterp) call(fn *ssa.Function, fr *pframe, x *ssa.Call, depth int) {
 				}
 			}
 		case "MatMul":
+			// with content: the sums of products, written into the reuse tensor when one is given
+			if p.content && len(cc.Args) >= 2 {
+				a, b := p.val(fr, cc.Args[0]), p.val(fr, cc.Args[1])
+				var reuse *pval
+				plain := true
+				if len(cc.Args) >= 3 {
+					switch o := p.val(fr, cc.Args[2]); o.k {
+					case pNil:
+					case pList:
+						for _, e := range fr.heap.lists[o.i] {
+							if e.k == pReuseOpt {
+								ev := e
+								ev.k = pShaped
+								reuse = &ev
+							} else {
+								plain = false
+							}
+						}
+						if fr.heap.lists[o.i] == nil {
+							plain = false
+						}
+					default:
+						plain = false
+					}
+				}
+				if a.k == pShaped && b.k == pShaped && a.m != 0 && b.m != 0 && plain {
+					sa, sb, ca, cb := fr.heap.lists[a.j], fr.heap.lists[b.j], fr.heap.lists[a.m], fr.heap.lists[b.m]
+					if sa != nil && sb != nil && ca != nil && cb != nil {
+						if len(sa) != 2 || len(sb) != 2 {
+							fr.tuples[x] = []pval{{k: pNil}, {k: pNonNil}} // "MatMul requires both operands to be matrices"
+							break
+						}
+						if sa[0].k == pInt && sa[1].k == pInt && sb[0].k == pInt && sb[1].k == pInt {
+							m, k, k2, n := sa[0].i, sa[1].i, sb[0].i, sb[1].i
+							if k != k2 {
+								fr.tuples[x] = []pval{{k: pNil}, {k: pNonNil}}
+								break
+							}
+							out := make([]pval, m*n)
+							for i := int64(0); i < m; i++ {
+								for j := int64(0); j < n; j++ {
+									acc := pval{k: pStr, s: "0"}
+									for q := int64(0); q < k; q++ {
+										acc = combineElems("Add", acc, combineElems("Mul", ca[i*k+q], cb[q*n+j]))
+									}
+									out[i*n+j] = acc
+								}
+							}
+							if reuse != nil {
+								rl, rs := fr.heap.lists[reuse.m], fr.heap.lists[reuse.j]
+								if rl == nil || rs == nil || int64(len(rl)) != m*n {
+									// gorgonia refuses a reuse tensor of another size
+									fr.tuples[x] = []pval{{k: pNil}, {k: pNonNil}}
+									break
+								}
+								for q, v := range out {
+									fr.heap.storeElem(reuse.m, int64(q), v)
+								}
+								fr.tuples[x] = []pval{*reuse, {k: pNil}}
+								break
+							}
+							fr.tuples[x] = []pval{{k: pShaped, i: a.i, j: fr.heap.alloc([]pval{{k: pInt, i: m}, {k: pInt, i: n}}).i, m: fr.heap.alloc(out).i}, {k: pNil}}
+						}
+					}
+				}
+			}
+			if _, done := fr.tuples[x]; done {
+				break
+			}
 			// the shape contract for two matrices: (m,k) x (k,n) -> (m,n), other inner extents are refused; with a
 			// reuse option the result is written into the given tensor (shape effect only)
 			if len(cc.Args) >= 2 {
@@ -2373,9 +2587,183 @@ func (p *pinterp) call(fn *ssa.Function, fr *pframe, x *ssa.Call, depth int) {
 					}
 				}
 			}
+		case "WithBacking":
+			if p.content && len(cc.Args) >= 1 {
+				if a := p.val(fr, cc.Args[0]); a.k == pList && fr.heap.lists[a.i] != nil {
+					fr.env[x] = pval{k: pBackOpt, j: a.i}
+				}
+			}
+		case "Copy":
+			// tensor.Copy(dst, src): element by element in logical order; the sizes have to agree
+			if p.content && len(cc.Args) == 2 {
+				d, sv := p.val(fr, cc.Args[0]), p.val(fr, cc.Args[1])
+				if d.k == pShaped && sv.k == pShaped && d.m != 0 && sv.m != 0 {
+					dl, sl := fr.heap.lists[d.m], fr.heap.lists[sv.m]
+					switch {
+					case dl == nil || sl == nil:
+						if dl != nil {
+							fr.heap.forget(d.m)
+						}
+					case len(dl) != len(sl):
+						fr.env[x] = pval{k: pNonNil}
+					default:
+						vals := append([]pval{}, sl...)
+						for k, v := range vals {
+							fr.heap.storeElem(d.m, int64(k), v)
+						}
+						fr.env[x] = pval{k: pNil}
+					}
+				}
+			}
+		case "Transpose":
+			// tensor.Transpose(t, perm...): a new tensor with the axes permuted (no perm: reversed)
+			if p.content && len(cc.Args) >= 1 {
+				t := p.val(fr, cc.Args[0])
+				var perm []int64
+				okP := true
+				if len(cc.Args) >= 2 {
+					switch pv := p.val(fr, cc.Args[1]); pv.k {
+					case pNil:
+					case pList:
+						for _, e := range fr.heap.lists[pv.i] {
+							if e.k != pInt {
+								okP = false
+							}
+							perm = append(perm, e.i)
+						}
+						if fr.heap.lists[pv.i] == nil {
+							okP = false
+						}
+					default:
+						okP = false
+					}
+				}
+				if t.k == pShaped && t.m != 0 && okP {
+					shl, cont := fr.heap.lists[t.j], fr.heap.lists[t.m]
+					if shl != nil && cont != nil {
+						r := len(shl)
+						shape := make([]int64, r)
+						okS := true
+						for i, e := range shl {
+							if e.k != pInt {
+								okS = false
+							}
+							shape[i] = e.i
+						}
+						if perm == nil {
+							for i := r - 1; i >= 0; i-- {
+								perm = append(perm, int64(i))
+							}
+						}
+						seenAx := map[int64]bool{}
+						permOK := len(perm) == r
+						for _, a := range perm {
+							if a < 0 || a >= int64(r) || seenAx[a] {
+								permOK = false
+							}
+							seenAx[a] = true
+						}
+						if okS && permOK {
+							nshape := make([]int64, r)
+							for i, a := range perm {
+								nshape[i] = shape[a]
+							}
+							strides := make([]int64, r)
+							acc := int64(1)
+							for i := r - 1; i >= 0; i-- {
+								strides[i] = acc
+								acc *= shape[i]
+							}
+							if acc == int64(len(cont)) {
+								nc := make([]pval, 0, len(cont))
+								idx := make([]int64, r)
+								var rec func(d int)
+								rec = func(d int) {
+									if d == r {
+										off := int64(0)
+										for i, a := range perm {
+											off += idx[i] * strides[a]
+										}
+										nc = append(nc, cont[off])
+										return
+									}
+									for idx[d] = 0; idx[d] < nshape[d]; idx[d]++ {
+										rec(d + 1)
+									}
+								}
+								rec(0)
+								nsl := make([]pval, r)
+								for i, e := range nshape {
+									nsl[i] = pval{k: pInt, i: e}
+								}
+								fr.tuples[x] = []pval{{k: pShaped, i: t.i, j: fr.heap.alloc(nsl).i, m: fr.heap.alloc(nc).i}, {k: pNil}}
+							}
+						} else if okS {
+							fr.tuples[x] = []pval{{k: pNil}, {k: pNonNil}} // gorgonia refuses what is not a permutation of the axes
+						}
+					}
+				}
+			}
+		case "WithReuse":
+			if p.content && len(cc.Args) == 1 {
+				if t := p.val(fr, cc.Args[0]); t.k == pShaped && t.m != 0 {
+					o := t
+					o.k = pReuseOpt
+					fr.env[x] = o
+				}
+			}
 		case "New":
 			if len(cc.Args) == 1 {
 				if a := p.val(fr, cc.Args[0]); a.k == pList {
+					if p.content {
+						// with content: a backing given as a list of known elements, or zeros
+						var shl, back []pval
+						haveShape := false
+						backID := int64(0)
+						for _, e := range fr.heap.lists[a.i] {
+							switch e.k {
+							case pShapeOpt:
+								if e.j != 0 {
+									shl, haveShape = fr.heap.lists[e.j], fr.heap.lists[e.j] != nil
+								}
+							case pBackOpt:
+								back, backID = fr.heap.lists[e.j], e.j
+							}
+						}
+						if haveShape {
+							total, okS := int64(1), true
+							for _, e := range shl {
+								if e.k != pInt || e.i < 0 {
+									okS = false
+								}
+								total *= e.i
+							}
+							if okS && total <= 4096 {
+								var cont []pval
+								switch {
+								case back != nil && int64(len(back)) == total:
+									// the tensor is built over the Go slice: they share their elements
+									fr.env[x] = pval{k: pShaped, i: 900, j: fr.heap.alloc(append([]pval{}, shl...)).i, m: backID}
+									return
+								case back != nil:
+									p.panicAt(fn, x, fmt.Sprintf("tensor.New: a backing of %d elements for a shape of %d", len(back), total))
+									fr.dead = true
+									return
+								default:
+									cont = make([]pval, total)
+									for k := range cont {
+										cont[k] = pval{k: pStr, s: "0"}
+									}
+								}
+								fr.env[x] = pval{k: pShaped, i: 900, j: fr.heap.alloc(append([]pval{}, shl...)).i, m: fr.heap.alloc(cont).i}
+								return
+							}
+						} else if back != nil {
+							// no shape given: a vector over the backing
+							fr.env[x] = pval{k: pShaped, i: 900, j: fr.heap.alloc([]pval{{k: pInt, i: int64(len(back))}}).i, m: backID}
+							return
+						}
+					}
 					for _, e := range fr.heap.lists[a.i] {
 						if e.k == pShapeOpt {
 							if e.j != 0 {
@@ -2831,11 +3219,19 @@ func (p *pinterp) sliceModel(fr *pframe, t pval, cc *ssa.CallCommon) ([]pval, bo
 			lo, ok1 := get("start")
 			hi, ok2 := get("end")
 			step, ok3 := get("step")
-			if !ok1 || !ok2 || !ok3 || step != 1 || lo < 0 || hi <= lo {
+			if !ok1 || !ok2 || !ok3 || step != 1 {
 				return nil, false
 			}
+			// gorgonia's CheckSlice / SliceDetails (utils.go l.201-245): start > end, start < 0 and start >= extent are
+			// refused, an end beyond the extent is clamped to it
+			if lo > hi || lo < 0 || lo >= shape[i] {
+				return []pval{{k: pNil}, {k: pNonNil}}, true
+			}
 			if hi > shape[i] {
-				return []pval{{k: pNil}, {k: pNonNil}}, true // gorgonia refuses an end beyond the extent
+				hi = shape[i]
+			}
+			if hi == lo {
+				return nil, false // an empty range: gorgonia turns the extent 0 into 1 (ap.go l.268); not modelled
 			}
 			rs[i] = rng{lo, hi, true}
 		default:
@@ -2851,13 +3247,13 @@ func (p *pinterp) sliceModel(fr *pframe, t pval, cc *ssa.CallCommon) ([]pval, bo
 		nshape = append(nshape, pval{k: pInt, i: e})
 	}
 	{
-		// gorgonia: a view of one element in all is a scalar, whatever unsliced unit axes there are
-		total, anySliced := int64(1), false
+		// gorgonia (AP.S, ap.go l.281): a view that spans one element of the backing is a scalar, whatever axes
+		// were sliced - also the unsliced view of a one-element tensor
+		total := int64(1)
 		for i := range shape {
 			total *= rs[i].hi - rs[i].lo
-			anySliced = anySliced || rs[i].sliced
 		}
-		if total == 1 && anySliced {
+		if total == 1 {
 			nshape = nil
 		}
 	}
@@ -2878,10 +3274,12 @@ func (p *pinterp) sliceModel(fr *pframe, t pval, cc *ssa.CallCommon) ([]pval, bo
 				acc *= shape[i]
 			}
 			var nc []pval
+			var offs []int64
 			var rec func(axis int, off int64)
 			rec = func(axis int, off int64) {
 				if axis == len(shape) {
 					nc = append(nc, old[off])
+					offs = append(offs, off)
 					return
 				}
 				for c := rs[axis].lo; c < rs[axis].hi; c++ {
@@ -2893,6 +3291,21 @@ func (p *pinterp) sliceModel(fr *pframe, t pval, cc *ssa.CallCommon) ([]pval, bo
 				nc = []pval{}
 			}
 			nv.m = fr.heap.alloc(nc).i
+			if p.content {
+				// a view: its elements are the parent's (a write through either is seen through the other)
+				back := make([]int64, total)
+				for k := range back {
+					back[k] = -1
+				}
+				for k, o := range offs {
+					back[o] = int64(k)
+				}
+				if fr.heap.alias == nil {
+					fr.heap.alias = map[int64][]palias{}
+				}
+				fr.heap.alias[nv.m] = append(append([]palias{}, fr.heap.alias[nv.m]...), palias{other: t.m, idx: offs})
+				fr.heap.alias[t.m] = append(append([]palias{}, fr.heap.alias[t.m]...), palias{other: nv.m, idx: back})
+			}
 		}
 	}
 	return []pval{nv, {k: pNil}}, true
